@@ -18,6 +18,7 @@ ENTRY = {
                 "A cut at a line boundary without framing is a success with the shorter text (named UndetectableCut). "
                 "The parser policy for #-lines that are not plain comments is measured on a title-less text and then demanded everywhere. "
                 "A refused set_url (download from the new location fails) is an action of its own: nothing, the remembered checksum included, may change. "
-                "Open known finding failed-set-url-forgets-checksum (fix proposed). Negative controls that must fail in TLC: FilterRefresh.seturlasis.cfg,  FilterRefresh.asis.cfg (pre-fix early return before the engine rebuild; fixed in /repo 9116a9d) and RuleList.modes.cfg (mode-dependent policy).",
+                "Disable / enable of a list (set_url, same URL) are actions too: a disabled list is unloaded, enabling refreshes it and must store what was served, also a list without rules. "
+                "Open known finding ruleless-list-into-unloaded-filter-not-stored (fix proposed); failed-set-url-forgets-checksum is fixed in /repo 008f1fe. Negative controls that must fail in TLC: FilterRefresh.seturlasis.cfg,  FilterRefresh.asis.cfg (pre-fix early return before the engine rebuild; fixed in /repo 9116a9d) and RuleList.modes.cfg (mode-dependent policy).",
         "technique": "TLA+ specs enumerated by TLC; exhaustive vector replay + edge-covering tours on the real code; TLC trace validation of recorded runs",
     }
